@@ -17,7 +17,17 @@ for _ in range(N):
     fam = ["$[?match(@, '%s')]" % pat, "$[?search(@, '%s')]" % pat, "$.s[?match(@, $.re)]", "$.s[?search(@, $.re)]", '$..a', "$..['a']", '$.a', "$['a']", '$[?@.a]', '$[?@.a==1]']
     rnd.shuffle(fam)
     queries += fam
+    # queries the AST builder rejects (ill-typed calls, out-of-range integers): a failure path that leaks state shows up later
+    queries += rnd.sample(['$[?length(@.*)==1]', '$[?count(1)==1]', '$[?length(@)]', "$[?match(@.b,'x')==true]", '$[?value(@..a)]', '$[9007199254740992]',
+                           '$[?@[9007199254740992]==1]', '$[?!count(@.a)]', "$['\x01']", '$[01]', '$[?(@.a) == 1]'], 4)
     ops = [[rnd.randrange(len(queries)), rnd.randrange(len(docs))] for _ in range(rnd.choice([8, 16, 24]))]
     ops += [[queries.index(q), len(docs) - rnd.choice([1, 2])] for q in fam[:6]]
     ops += rnd.sample(ops, min(4, len(ops)))      # deliberate repetitions
-    print(json.dumps({'docs': docs, 'tdocs': [tag(d) for d in docs], 'queries': queries, 'ops': ops, 'threads': rnd.choice([2, 4, 8])}, ensure_ascii=False))
+    print(json.dumps({'docs': docs, 'tdocs': [tag(d) for d in docs], 'queries': queries, 'ops': ops, 'threads': rnd.choice([2, 4, 8]), 'repeat': 1}, ensure_ascii=False))
+    if _ % 10 == 0:
+        # stress history: one shared document with many distinct regular expressions, evaluated many times from 8 threads
+        pats = ['a', 'b', 'ab', 'a.', '.b', 'a|b', '[ab]+', 'x*', 'b+', '(a|b)b', 'a?b', '[^a]', 'ab|a', 'c', '.', 'a.*']
+        rnd.shuffle(pats)
+        d = [{'s': rnd.choice(['ab', 'a', 'b', 'xab', 'bb', '']), 'p': p} for p in pats[:rnd.choice([9, 12, 16])]]
+        qs = ['$[?match(@.s, @.p)].s', '$[?search(@.s, @.p)].p', '$[?!match(@.s, @.p)]', "$[?search(@.s, 'a') && match(@.p, '.*')]"]
+        print(json.dumps({'docs': [d], 'tdocs': [tag(d)], 'queries': qs, 'ops': [[i, 0] for i in range(len(qs))], 'threads': 8, 'repeat': 60}, ensure_ascii=False))
